@@ -1178,7 +1178,7 @@ def impose_unique(seq=None):
         return func
     return dec
 
-from numpy import array, intersect1d, inf, isnan, where, choose, clip as _clip
+from numpy import array, intersect1d, inf, isnan, isfinite, where, choose, clip as _clip
 from numpy.random import uniform, choice
 def bounded(seq, bounds, index=None, clip=True, nearest=True):
     """bound a sequence by bounds = [min,max]
@@ -1224,7 +1224,9 @@ def bounded(seq, bounds, index=None, clip=True, nearest=True):
         n = len(seq); index = [i % n for i in index if -n <= i < n]
         at = intersect1d(at, index)
     if not len(at): return seq
-    if seq.dtype.kind in 'iub': seq = seq.astype(float) # bounds are float
+    if seq.dtype.kind in 'iub': # (integers can't hold a fraction)
+        ends = bounds[isfinite(bounds)]
+        if not (clip and (ends == ends.round()).all()): seq = seq.astype(float)
     if clip:
         if nearest: # clip at closest bounds
             seq_at = seq[at]
@@ -1568,7 +1570,7 @@ def near_integers(x): # use as a penalty for int programming
 
 def has_unique(x): # use as a penalty for unique numbers
     """check for uniqueness of the members of x"""
-    return sum(x.count(xi) for xi in x)
+    return sum([x.count(xi) for xi in x])
    #return len(x) - len(set(x))
 
 
